@@ -23,3 +23,5 @@ mod h_vxlib;
 mod h_io;
 #[cfg(kani)]
 mod h_setters;
+#[cfg(kani)]
+mod h_builder;
